@@ -293,8 +293,7 @@ def run_finalize(ck_ob, mod, label):
     for p in paths:
         cls = [e for e in p.events if e[0] == "class" and e[1] == "start"]
         if not cls or p.end[0] != "ret":
-            c("CONSTR", False, "finalize-straight", "", "finalize is not a straight path per buffer position (end=%s)" % (p.end[0],))
-            continue
+            raise Broken("tinyjambu_hash_finalize is not one straight path per buffer position (a path ends with %s): unrecognised shape" % (p.end[0],))
         pz = int(cls[0][2].split("=")[1])
         seen.add(pz)
         S0 = words_at(p, ST, 0, 4, True)
